@@ -379,8 +379,9 @@ func customC03(t *testing.T, e *mc.Explorer) *mc.ShardResult {
 
 // runC03Methods: only a GET without Range may be answered from the store.
 func runC03Methods(x *mc.X) {
-	method := mc.Pick(x, "method", []string{"GET", "HEAD", "POST", "OPTIONS", "get", "QUERY", "PUT", "DELETE", "TRACE", "PROPFIND"})
-	rng := mc.Pick(x, "range", []string{"", "bytes=0-1", "bytes=0-"})
+	method := mc.Pick(x, "method", []string{"GET", "HEAD", "POST", "OPTIONS", "get", "QUERY", "PUT", "DELETE", "TRACE", "PROPFIND", "(left empty)"})
+	// range units are case-insensitive, and a unit the cache does not know still makes it a range request
+	rng := mc.Pick(x, "range", []string{"", "bytes=0-1", "bytes=0-", "Bytes=0-1", "BYTES=2-", "items=0-9", "bytes=0-0,-1"})
 	state := mc.Pick(x, "stored", []string{"fresh", "stale+etag"})
 	reqCC := mc.Pick(x, "request-cache-control", []string{"", "only-if-cached", "max-stale"})
 	w := world.New(world.Opt{})
@@ -396,9 +397,12 @@ func runC03Methods(x *mc.X) {
 		}
 		return o.Respond(c, RS{Status: 200, H: H("Cache-Control", "no-store")}), nil
 	})
-	req, err := http.NewRequest(method, U, nil)
+	req, err := http.NewRequest(strings.TrimSuffix(method, "(left empty)"), U, nil)
 	if err != nil {
 		x.Skip()
+	}
+	if method == "(left empty)" {
+		req.Method = "" // net/http: "For client requests, an empty string means GET"
 	}
 	if rng != "" {
 		req.Header.Set("Range", rng)
@@ -408,7 +412,7 @@ func runC03Methods(x *mc.X) {
 	}
 	o2 := w.Do(req)
 	logObs(x, fmt.Sprintf("%s Range=%q Cache-Control=%q", method, rng, reqCC), o2)
-	plain := method == "GET" && rng == ""
+	plain := (method == "GET" || method == "(left empty)") && rng == ""
 	x.Nontrivial(fmt.Sprintf("%s/range=%v/%s", method, rng != "", state))
 	x.State(method, rng, state, reqCC, obsClass(o2), fmt.Sprint(o2.Tok == o1.Tok))
 	x.Sample(map[string]any{"method": method, "range": rng, "stored": state, "request_cache_control": reqCC, "observed": o2.String()})
